@@ -53,9 +53,9 @@ type Log struct {
 	// appended (lets a case emulate a slow terminal or log sink).
 	OutDelay func(text string)
 	mu       sync.Mutex
-	evs  []Event
-	seq  atomic.Int64
-	base time.Time
+	evs      []Event
+	seq      atomic.Int64
+	base     time.Time
 }
 
 func NewLog() *Log { return &Log{base: time.Now()} }
